@@ -3,7 +3,8 @@
    view-forming member function is the function on triples the C++ computes.  The theorems relate
    it to the *denotation* den_ops: the map from an index of the derived view to the parent index. *)
 From Coq Require Import ZArith List Lia.
-From Adept Require Import View ViewProofs.
+From Adept Require Import View ViewProofs ViewGen.
+From AdeptGen Require Import Gen_Slice.
 Import ListNotations.
 Local Open Scope Z_scope.
 
@@ -69,3 +70,22 @@ Example C06_example :
   adm_ops (parent [12]) os = true /\ dims (apply_ops (parent [12]) os) = [3] /\
   map (fun j => addr (apply_ops (parent [12]) os) [j]) [0;1;2] = [10; 6; 2].
 Proof. vm_compute. repeat split. Qed.
+
+(* Tie G.  Array::operator()(i0,...,ik) as read from Array.h on every run - the scalar and the range version of
+   update_index (offset; new extent with truncating division; new stride), applied to the arguments in order from
+   ibegin = 0 as each of the multi-argument overloads does, and the rank-1 ranged operator - is the model's [slice], for
+   every view and every index list; hence the address identity holds for the view the code builds. *)
+Theorem C06_generated_slice : forall v l,
+  gen_slice v l = slice v l /\
+  (forall j, wfv v -> length l = length (dims v) -> addr (gen_slice v l) j = addr v (den_slice l (dims v) j)) /\
+  (forall b0 d s bb ee st, gen_slice1 b0 d s bb ee st = slice (mkView b0 [d] [s]) [IR bb ee st]).
+Proof.
+  intros v l. split; [exact (gen_slice_eq v l)|]. split; [|exact gen_slice1_eq].
+  intros j Hw Hl. rewrite gen_slice_eq. exact (slice_addr v l j Hw Hl).
+Qed.
+Print Assumptions C06_generated_slice.
+
+(* non-vacuity: A(end-1, stride(end,0,-2)) of a 3 x 5 row-major matrix at offset 100 *)
+Example C06_example_generated_slice :
+  gen_slice (mkView 100 [3;5] [5;1]) [IS (IEnd (-1)); IR (IEnd 0) (IAbs 0) (-2)] = mkView 109 [3] [-2].
+Proof. vm_compute. reflexivity. Qed.
